@@ -79,6 +79,15 @@ def random_class_configs(tier, seed, n_quick=3000, n_thorough=40000):
     return out
 
 
+def alg_configs(tier):
+    """Layer I for classes.py (ImplClassAlg): the interval loops under every iteration order; model only."""
+    inv = ['UnionCorrect', 'SubCorrect', 'RangesWellFormed', 'Termination']
+    cfg = 'SPECIFICATION Spec\nINVARIANT UnionCorrect\nINVARIANT SubCorrect\nINVARIANT RangesWellFormed\nPROPERTY Termination\nCHECK_DEADLOCK FALSE\n'
+    sizes = [('or', 4, 2, 1), ('sub', 4, 2, 1)] if tier == 'quick' else [('or', 4, 2, 2), ('sub', 4, 2, 2), ('or', 5, 2, 1), ('sub', 5, 2, 1)]
+    return [dict(name='ImplClassAlg %s window=%d ranges<=%d chars<=%d' % s, module='ImplClassAlg', model_only=True, invariants=inv, workers=8,
+                 cfg=cfg, timeout=3000, defs={'AlgWin': set(range(97, 97 + s[1])), 'MaxR': s[2], 'MaxC': s[3], 'AlgOp': s[0]}) for s in sizes]
+
+
 def hash_seeds(tier, seed):
     return sorted({0, 1, 2, seed % (2 ** 32)}) if tier == 'quick' else list(range(16))
 
@@ -87,7 +96,8 @@ def generic(prop, facets, rule, configs_fn, args_tier=None):
     tier, seed = tier_and_seed(args_tier)
     t0 = time.time()
     seeds = hash_seeds(tier, seed)
-    res = run_generated(configs_fn(tier, seed) + random_class_configs(tier, seed), 'harness.judge_class.judge', {'prop': prop, 'facets': sorted(facets)},
+    res = run_generated((alg_configs(tier) if prop == 'C07' else []) + configs_fn(tier, seed) + random_class_configs(tier, seed),
+                        'harness.judge_class.judge', {'prop': prop, 'facets': sorted(facets)},
                         seeds=seeds, mode='all', batch=200)
     st = res.agg.stats
     cov = {'states': res.states, 'transitions': res.transitions, 'traces_validated_against_impl': st.get('cases', 0),
